@@ -54,11 +54,20 @@ def compact(beh: List[Dict[str, Any]]) -> List[str]:
     return out
 
 
-def write_replay(pid: str, beh: List[Dict[str, Any]], v: Dict[str, Any]) -> str:
+def write_replay(pid: str, beh: Any, v: Dict[str, Any]) -> str:
     d = os.path.join(OUT, "replays")
     os.makedirs(d, exist_ok=True)
     key = hashlib.md5(json.dumps([v["kind"], v["a"], v["en"], str(v["g"]), v["cell"], v["flags"]],
                                  sort_keys=True).encode()).hexdigest()[:8]
+    if beh is None:
+        # a recorded execution: keep the lines of that trace up to the failing one
+        path = os.path.join(d, f"{pid}_{v['kind']}_{v['a']}_{key}.ndjson")
+        with open(v["file"]) as src, open(path, "w") as dst:
+            for ln in src:
+                r = json.loads(ln)
+                if r["tid"] == v["tid"] and r["seq"] <= v["step"]:
+                    dst.write(ln)
+        return path
     path = os.path.join(d, f"{pid}_{v['kind']}_{v['a']}_{key}.json")
     with open(path, "w") as f:
         json.dump({"property": pid, "violation": v, "behaviour": beh[: v["step"] + 1]}, f)
@@ -99,7 +108,12 @@ def run_replay_check(pid: str, tier: str, seed: int) -> int:
     if len(behaviours) < 4:
         raise Machinery(f"only {len(behaviours)} behaviours were generated")
     # ---- 3. replay into the real library
-    results = pool.replay_all(behaviours, procs=14)
+    trace_dir = os.path.join(OUT, f"traces_{pid}_{tier}")
+    import shutil
+
+    shutil.rmtree(trace_dir, ignore_errors=True)
+    os.makedirs(trace_dir)
+    results = pool.replay_all(behaviours, procs=14, trace_dir=trace_dir)
     herr = [r for r in results if r.get("harness_error")]
     if herr:
         print(herr[0]["harness_error"])
@@ -130,6 +144,19 @@ def run_replay_check(pid: str, tier: str, seed: int) -> int:
                 known[f["id"]] = known.get(f["id"], 0) + 1
             else:
                 unknown.append((v, beh))
+    # ---- 4b. the recorded executions, judged by TLC against the structural contract
+    from harness import tracecheck
+
+    tfiles = sorted(os.path.join(trace_dir, f) for f in os.listdir(trace_dir) if f.endswith(".ndjson"))
+    tfail, tstats = tracecheck.validate(tfiles)
+    for v in tfail:
+        if pid not in v["props"]:
+            continue
+        f = findings.classify(pid, v, kf)
+        if f is not None:
+            known[f["id"]] = known.get(f["id"], 0) + 1
+        else:
+            unknown.append((v, None))
     for fid, n in sorted(known.items()):
         f = [x for x in kf if x["id"] == fid][0]
         print(f"KNOWN-FINDING: property={pid} {fid} {f['what']} (hit {n}x)")
@@ -158,6 +185,7 @@ def run_replay_check(pid: str, tier: str, seed: int) -> int:
             "behaviours_stopped_by_other_property": other_prop,
             "behaviours_not_followed_open_choice": notfollowed,
             "implementation_steps_compared": steps,
+            "trace_lines_validated_by_tlc": tstats["lines"],
             "distinct_nontrivial": len(relevant_cells),
             "evaluations": steps,
             "rule": "one case = (action, entry point, kind:storage:level of each addressed subsystem as observed "
@@ -179,6 +207,120 @@ def run_replay_check(pid: str, tier: str, seed: int) -> int:
     print(f"{pid} {tier}: spec {ex_total['distinct']} states / {ex_total['generated']} transitions; "
           f"{len(behaviours)} behaviours replayed, {completed} to the end, {steps} steps compared, "
           f"{len(relevant_cells)} distinct cells, {nviol} violations, {sum(known.values())} known-finding hits, "
+          f"{evidence['wall_s']} s")
+    return 1 if nviol else 0
+
+
+def run_trace_check(pid: str, tier: str, seed: int) -> int:
+    """Properties decided on recorded executions (direction B): design-level invariants on the
+    specification, then TLC judges every line of (i) replays of TLC behaviours, (ii) random
+    continuous-parameter programs, (iii, thorough) the repository's own test-suite."""
+    from harness import tracecheck
+    from harness.plans import TRACE_PLANS
+    import shutil
+
+    t0 = time.time()
+    plan = TRACE_PLANS[pid]
+    ensure_speclib()
+    ex_total = {"generated": 0, "distinct": 0, "depth": 0}
+    ex_desc = []
+    for (u, depth, fam) in plan["exhaustive"][tier]:
+        cfg = configs.make_cfg(f"{pid}_{tier}_ex_{u}.cfg", u, depth, False, families=fam, ops="X", exhaustive=True,
+                               init=u + "_ExInit")
+        st, _ = tlcrun.check("MC", cfg, workers=16, timeout=1500)
+        ex_total["generated"] += st["generated"]
+        ex_total["distinct"] += st["distinct"]
+        ex_total["depth"] = max(ex_total["depth"], st["depth"])
+        ex_desc.append(f"{u} depth {depth} families {fam}: {st['distinct']} distinct / {st['generated']} generated")
+    trace_dir = os.path.join(OUT, f"traces_{pid}_{tier}")
+    shutil.rmtree(trace_dir, ignore_errors=True)
+    os.makedirs(trace_dir)
+    behaviours: List[List[Dict[str, Any]]] = []
+    gen_desc = []
+    for k, g in enumerate(plan["simulate"][tier]):
+        cfg = configs.make_cfg(f"{pid}_{tier}_sim{k}.cfg", g["u"], g["depth"], True, families=g.get("fam", "Fam_All"),
+                               ops=g.get("ops", "All"), init=g.get("init"), overrides=g.get("over"),
+                               next_=g.get("next", "NextSim"))
+        tr, st = tlcrun.simulate("MC", cfg, num=g["num"], depth=g["depth"], seed=seed * 97 + k, procs=8)
+        behaviours.extend(tr)
+        gen_desc.append(f"{g['u']} x{len(tr)} depth {g['depth']} {g.get('fam', 'Fam_All')}")
+    results = pool.replay_all(behaviours, procs=10, trace_dir=trace_dir) if behaviours else []
+    herr = [r for r in results if r.get("harness_error")]
+    if herr:
+        print(herr[0]["harness_error"])
+        raise Machinery(f"{len(herr)} behaviours could not be replayed because the harness failed")
+    nprog, nsteps = plan["drivers"][tier]
+    dfiles = tracecheck.run_drivers(seed, nprog, nsteps, procs=12, outdir=os.path.join(trace_dir, "drv")) if nprog else []
+    tfiles = sorted(os.path.join(trace_dir, f) for f in os.listdir(trace_dir) if f.endswith(".ndjson")) + dfiles
+    if tier == "thorough" and plan.get("repo_tests", True):
+        tfiles += tracecheck.run_repo_tests(os.path.join(trace_dir, "repo"))
+    tfail, tstats = tracecheck.validate(tfiles, procs=12)
+    if tstats["lines"] < 50:
+        raise Machinery(f"only {tstats['lines']} trace lines were recorded")
+    kf = findings.load()
+    known: Dict[str, int] = {}
+    nviol = 0
+    seen = set()
+    for v in tfail:
+        if pid not in v["props"]:
+            continue
+        f = findings.classify(pid, v, kf)
+        if f is not None:
+            known[f["id"]] = known.get(f["id"], 0) + 1
+            continue
+        path = write_replay(pid, None, v)
+        if path in seen:
+            continue
+        seen.add(path)
+        nviol += 1
+        print(f"VIOLATION property={pid} replay={path}")
+        print(f"  {v['detail']} cell={v['cell']} flags={v['flags']}")
+    for fid, n in sorted(known.items()):
+        f = [x for x in kf if x["id"] == fid][0]
+        print(f"KNOWN-FINDING: property={pid} {fid} {f['what']} (hit {n}x)")
+    # coverage: distinct (call, entry, layout of addressed subsystems) seen in the recorded lines
+    cells = set()
+    sample_lines = []
+    ntraces = set()
+    for p in tfiles:
+        with open(p) as fh:
+            for ln in fh:
+                r = json.loads(ln)
+                ev = r["ev"]
+                ntraces.add((p, r["tid"]))
+                lay = []
+                for s in ev.get("addr", []):
+                    for x in r["pre"]["subs"]:
+                        if x["id"] == s:
+                            lay.append(f"{x['k']}:{'own' if x['rp'] != 'none' else ('env' if len(x['ix']) == 1 else 'ps')}:{x['lv']}")
+                cells.add(f"{ev['a']}/{ev['entry']}/{','.join(lay)}/{ev['res']}")
+                if len(sample_lines) < 6:
+                    sample_lines.append({"tid": r["tid"], "seq": r["seq"], "event": ev})
+    evidence = {
+        "property_id": pid, "tier": tier, "seed": seed, "level": "model_checking",
+        "coverage": {
+            "states": ex_total["distinct"] + tstats["lines"], "transitions": ex_total["generated"] + tstats["lines"],
+            "traces_validated_against_impl": len(ntraces),
+            "samples": sample_lines,
+            "exhaustive": False,
+            "spec_exhaustive_runs": ex_desc,
+            "trace_lines_validated_by_tlc": tstats["lines"], "trace_files": tstats["files"],
+            "sources": {"replayed_tlc_behaviours": gen_desc, "random_programs": f"{nprog} programs x {nsteps} steps",
+                        "repository_test_suite": tier == "thorough" and plan.get("repo_tests", True)},
+            "clauses": sorted(k for k, v in tracecheck.CLAUSE_PROP.items() if v == pid),
+            "distinct_nontrivial": len(cells), "evaluations": tstats["lines"],
+            "rule": "one case = (public call, entry point, kind:storage:level of every addressed subsystem before the "
+                    "call, ok/exception) among the recorded lines; every line is judged by every clause in TLC",
+        },
+        "assumptions": ["the projection (harness/tracer.py) reads the object graph truthfully",
+                        "numeric flags (unit norm / trace, Hermitian, PSD) are computed in float64 with tolerance 1e-8"],
+        "wall_s": round(time.time() - t0, 1), "violations": nviol, "known_findings_hit": known,
+    }
+    os.makedirs(EVID, exist_ok=True)
+    with open(os.path.join(EVID, f"{pid}.json"), "w") as f:
+        json.dump(evidence, f, indent=1)
+    print(f"{pid} {tier}: spec {ex_total['distinct']} states; {tstats['lines']} recorded calls in {len(ntraces)} executions "
+          f"judged by TLC, {len(cells)} distinct cells, {nviol} violations, {sum(known.values())} known-finding hits, "
           f"{evidence['wall_s']} s")
     return 1 if nviol else 0
 
@@ -210,6 +352,10 @@ def main() -> int:
             return run_replay_file(a.replay)
         if a.pid in REPLAY_PLANS:
             return run_replay_check(a.pid, tier, seed)
+        from harness.plans import TRACE_PLANS
+
+        if a.pid in TRACE_PLANS:
+            return run_trace_check(a.pid, tier, seed)
         from harness import other_checks
 
         if a.pid in other_checks.CHECKS:
